@@ -7,6 +7,8 @@
 // Memory-mapped views: real files made of library-serialized values are mapped and every view type is requested at
 // every offset (one forked child per file); a view that `new` returned is asked for its extent and touched at its
 // first and last element, so that a view beyond the mapping shows up in the range test or kills the child.
+// Histories: random sequences of safe RawVector / IntVector calls (refused calls run on a clone and are dropped), then
+// the final length and backing words, the safe conversions into a BitVector and its iterators (CHistR / CHistI).
 use crate::bvgen::*;
 use crate::common::*;
 use simple_sds::bit_vector::BitVector;
@@ -578,7 +580,7 @@ fn set_bit_then_iterate(out: &mut Out, rng: &mut Rng, rv: &RawVector, loaded: bo
     offs.dedup();
     for i in offs.iter() {
         for v in [true, false] {
-            if !v && *i != len && *i + 1 != cap {
+            if !v && *i != len && i.wrapping_add(1) != cap {
                 continue;
             }
             let mut c = rv.clone();
@@ -1536,6 +1538,567 @@ fn mapped_batch(out: &mut Out, path: &std::path::Path, bytes: &[u8], desc: &str,
     let _ = fs::remove_file(path);
 }
 
+// ---------------------------------------------------------------- histories of safe calls (CHistR / CHistI)
+//
+// A random history of SAFE calls on a RawVector (from RawVector::new()) resp. an IntVector (from IntVector::new(w0)).
+// Every call runs on a clone under `catch`; the clone replaces the vector only when the call returned, so the emitted
+// history holds exactly the calls that returned (a refused call leaves no trace in a safe program that catches the
+// panic). Then the final vector - for an IntVector the RawVector it converts into - is observed (len, backing words),
+// converted with BitVector::from and its iterators are driven. The words of the final vector must satisfy the
+// representation invariant (ceil(len / 64) words, no bit set at or beyond len): the unchecked scans rely on it.
+
+const K_HISTR: u64 = 10;
+const K_HISTI: u64 = 11;
+
+#[derive(Clone, Debug)]
+enum HR {
+    WithLen(usize, bool),
+    Resize(usize, bool),
+    Clear,
+    Reserve(usize),
+    Complement,
+    PushBit(bool),
+    PopBit,
+    SetBit(usize, bool),
+    Bit(usize),
+    CountOnes,
+}
+
+fn hr_term(o: &HR) -> String {
+    match o {
+        HR::WithLen(l, v) => format!("HWithLen {} {}", nz(*l), b(*v)),
+        HR::Resize(l, v) => format!("HResize {} {}", nz(*l), b(*v)),
+        HR::Clear => "HClear".to_string(),
+        HR::Reserve(a) => format!("HReserve {}", nz(*a)),
+        HR::Complement => "HCompl".to_string(),
+        HR::PushBit(v) => format!("HPushBit {}", b(*v)),
+        HR::PopBit => "HPopBit".to_string(),
+        HR::SetBit(i, v) => format!("HSetBit {} {}", nz(*i), b(*v)),
+        HR::Bit(i) => format!("HBit {}", nz(*i)),
+        HR::CountOnes => "HCount".to_string(),
+    }
+}
+
+fn hr_name(o: &HR) -> &'static str {
+    match o {
+        HR::WithLen(..) => "with_len",
+        HR::Resize(..) => "resize",
+        HR::Clear => "clear",
+        HR::Reserve(..) => "reserve",
+        HR::Complement => "complement",
+        HR::PushBit(..) => "push_bit",
+        HR::PopBit => "pop_bit",
+        HR::SetBit(..) => "set_bit",
+        HR::Bit(..) => "bit",
+        HR::CountOnes => "count_ones",
+    }
+}
+
+fn hr_apply(v: &mut RawVector, o: &HR) {
+    match o {
+        HR::WithLen(l, x) => *v = RawVector::with_len(*l, *x),
+        HR::Resize(l, x) => v.resize(*l, *x),
+        HR::Clear => v.clear(),
+        HR::Reserve(a) => v.reserve(*a),
+        HR::Complement => *v = v.complement(),
+        HR::PushBit(x) => v.push_bit(*x),
+        HR::PopBit => {
+            std::hint::black_box(v.pop_bit());
+        }
+        HR::SetBit(i, x) => v.set_bit(*i, *x),
+        HR::Bit(i) => {
+            std::hint::black_box(v.bit(*i));
+        }
+        HR::CountOnes => {
+            std::hint::black_box(v.count_ones());
+        }
+    }
+}
+
+const HIST_LENS: [usize; 14] = [1, 2, 63, 64, 65, 66, 127, 128, 129, 130, 191, 192, 193, 200];
+
+// `ones`: the history prefers set bits (a vector full of ones is where one stray bit makes count_ones exceed len)
+fn gen_hr(rng: &mut Rng, len: usize, nwords: usize, ones: bool) -> HR {
+    let cap = 64 * nwords;
+    loop {
+        let k = if len > 300 { 25 + rng.below(35) } else { rng.below(100) };
+        match k {
+            0..=24 => return HR::PushBit(if ones { !rng.chance(1, 8) } else { rng.chance(1, 2) }),
+            25..=39 => return HR::PopBit,
+            40..=47 => {
+                // shrink: into the last word, onto a word boundary, anywhere
+                let l = match rng.below(3) {
+                    0 => len.saturating_sub(rng.range(1, 9) as usize),
+                    1 => (len / 64) * 64,
+                    _ => rng.below(len as u64 + 1) as usize,
+                };
+                return HR::Resize(l, rng.chance(1, 2));
+            }
+            48..=55 => {
+                let add = match rng.below(4) {
+                    0 => 0,
+                    1 => rng.range(1, 8) as usize,
+                    2 => (64 - len % 64) % 64,
+                    _ => rng.range(1, 130) as usize,
+                };
+                return HR::Resize(len + add, if ones { !rng.chance(1, 6) } else { rng.chance(1, 2) });
+            }
+            56..=67 => {
+                if len == 0 {
+                    continue;
+                }
+                let i = if rng.chance(1, 3) { len - 1 - rng.below(std::cmp::min(len, 8) as u64) as usize } else { rng.below(len as u64) as usize };
+                return HR::SetBit(i, if ones { !rng.chance(1, 5) } else { rng.chance(1, 2) });
+            }
+            68..=74 => {
+                // refused: at or beyond the length (unused bits of the last word, beyond the words, extreme)
+                let offs = [len, len + 1, (len + cap) / 2, cap.saturating_sub(1), cap, cap + 1, cap + 64, 1usize << 63, MAX - 1, MAX];
+                let i = *rng.pick(&offs);
+                if i < len {
+                    continue;
+                }
+                return HR::SetBit(i, !rng.chance(1, 4));
+            }
+            75..=84 => return HR::Complement,
+            85..=87 => return HR::WithLen(if rng.chance(1, 2) { *rng.pick(&HIST_LENS) } else { rng.below(200) as usize }, if ones { true } else { rng.chance(1, 2) }),
+            88..=89 => return HR::Clear,
+            90..=91 => return HR::Reserve(rng.below(300) as usize),
+            92..=95 => {
+                let i = match rng.below(4) {
+                    0 => len,
+                    1 => cap + rng.below(3) as usize,
+                    2 => MAX,
+                    _ => rng.below(len as u64 + 1) as usize,
+                };
+                return HR::Bit(i);
+            }
+            _ => return HR::CountOnes,
+        }
+    }
+}
+
+#[derive(Clone, Debug)]
+enum HI {
+    WithLen(usize, usize, u64),
+    From(usize, Vec<u64>),
+    Get(usize),
+    Set(usize, u64),
+    Push(u64),
+    Pop,
+    Resize(usize, u64),
+    Clear,
+    Reserve(usize),
+    Pack,
+    Extend(usize, Vec<u64>), // element type: 8 / 16 / 32 / 64 bits, 65 = usize
+    CountOnes,
+}
+
+fn hi_term(o: &HI) -> String {
+    match o {
+        HI::WithLen(l, w, v) => format!("JWithLen {} {} {}", nz(*l), nz(*w), n(*v)),
+        HI::From(w, xs) => format!("JFrom {} {}", w, nlist(xs)),
+        HI::Get(i) => format!("JGet {}", nz(*i)),
+        HI::Set(i, v) => format!("JSet {} {}", nz(*i), n(*v)),
+        HI::Push(v) => format!("JPush {}", n(*v)),
+        HI::Pop => "JPop".to_string(),
+        HI::Resize(l, v) => format!("JResize {} {}", nz(*l), n(*v)),
+        HI::Clear => "JClear".to_string(),
+        HI::Reserve(a) => format!("JReserve {}", nz(*a)),
+        HI::Pack => "JPack".to_string(),
+        HI::Extend(_, xs) => format!("JExtend {}", nlist(xs)),
+        HI::CountOnes => "JCount".to_string(),
+    }
+}
+
+fn hi_name(o: &HI) -> &'static str {
+    match o {
+        HI::WithLen(..) => "with_len",
+        HI::From(..) => "from",
+        HI::Get(..) => "get",
+        HI::Set(..) => "set",
+        HI::Push(..) => "push",
+        HI::Pop => "pop",
+        HI::Resize(..) => "resize",
+        HI::Clear => "clear",
+        HI::Reserve(..) => "reserve",
+        HI::Pack => "pack",
+        HI::Extend(..) => "extend",
+        HI::CountOnes => "count_ones",
+    }
+}
+
+fn hi_apply(v: &mut IntVector, o: &HI) {
+    match o {
+        HI::WithLen(l, w, x) => *v = IntVector::with_len(*l, *w, *x).unwrap(),
+        HI::From(w, xs) => {
+            *v = match w {
+                8 => IntVector::from(xs.iter().map(|x| *x as u8).collect::<Vec<u8>>()),
+                16 => IntVector::from(xs.iter().map(|x| *x as u16).collect::<Vec<u16>>()),
+                32 => IntVector::from(xs.iter().map(|x| *x as u32).collect::<Vec<u32>>()),
+                _ => IntVector::from(xs.clone()),
+            }
+        }
+        HI::Get(i) => {
+            std::hint::black_box(v.get(*i));
+        }
+        HI::Set(i, x) => v.set(*i, *x),
+        HI::Push(x) => v.push(*x),
+        HI::Pop => {
+            std::hint::black_box(v.pop());
+        }
+        HI::Resize(l, x) => v.resize(*l, *x),
+        HI::Clear => v.clear(),
+        HI::Reserve(a) => v.reserve(*a),
+        HI::Pack => v.pack(),
+        HI::Extend(t, xs) => match t {
+            8 => v.extend(xs.iter().map(|x| *x as u8)),
+            16 => v.extend(xs.iter().map(|x| *x as u16).collect::<Vec<u16>>()),
+            32 => v.extend(xs.iter().map(|x| *x as u32)),
+            65 => v.extend(xs.iter().map(|x| *x as usize).collect::<Vec<usize>>()),
+            _ => v.extend(xs.clone()),
+        },
+        HI::CountOnes => {
+            std::hint::black_box(AsRef::<RawVector>::as_ref(v).count_ones());
+        }
+    }
+}
+
+// a value to be written into a field of `w` bits: usually wider than the field, often all ones inside it
+fn hist_value(rng: &mut Rng, w: usize, ones: bool) -> u64 {
+    let mask = if w >= 64 { !0u64 } else { (1u64 << w) - 1 };
+    if ones && !rng.chance(1, 10) {
+        return if rng.chance(1, 2) { !0u64 } else { mask };
+    }
+    match rng.below(8) {
+        0 => !0u64,
+        1 => 0,
+        2 => rng.next() & mask,
+        3 => mask,
+        4 => mask | (rng.next() & !mask),
+        5 => !mask,
+        6 => rng.word(),
+        _ => rng.next(),
+    }
+}
+
+fn hist_typed(rng: &mut Rng, t: usize, count: usize, ones: bool) -> Vec<u64> {
+    (0..count)
+        .map(|_| {
+            let x = if ones && !rng.chance(1, 10) {
+                !0u64
+            } else {
+                match rng.below(4) {
+                    0 => !0u64,
+                    1 => rng.word(),
+                    2 => rng.below(16),
+                    _ => rng.next(),
+                }
+            };
+            match t {
+                8 => x & 0xFF,
+                16 => x & 0xFFFF,
+                32 => x & 0xFFFF_FFFF,
+                _ => x,
+            }
+        })
+        .collect()
+}
+
+const HIST_WIDTHS: [usize; 12] = [1, 2, 3, 7, 8, 13, 31, 32, 33, 48, 63, 64];
+
+fn hist_width(rng: &mut Rng) -> usize {
+    if rng.chance(2, 3) {
+        *rng.pick(&HIST_WIDTHS)
+    } else {
+        rng.range(1, 64) as usize
+    }
+}
+
+fn gen_hi(rng: &mut Rng, len: usize, width: usize, ones: bool) -> HI {
+    loop {
+        let big = len * width > 400 || len > 40;
+        let k = if big { 30 + rng.below(30) } else { rng.below(100) };
+        match k {
+            0..=29 => return HI::Push(hist_value(rng, width, ones)),
+            30..=44 => return HI::Pop,
+            45..=52 => {
+                if big || rng.chance(1, 2) {
+                    return HI::Resize(rng.below(len as u64 + 1) as usize, hist_value(rng, width, ones));
+                } else {
+                    return HI::Resize(len + rng.range(0, 12) as usize, hist_value(rng, width, ones));
+                }
+            }
+            53..=58 => return HI::Pack,
+            59..=63 => {
+                if len == 0 {
+                    continue;
+                }
+                return HI::Get(rng.below(len as u64) as usize);
+            }
+            64..=74 => {
+                if len == 0 {
+                    continue;
+                }
+                let i = if rng.chance(1, 3) { len - 1 } else { rng.below(len as u64) as usize };
+                return HI::Set(i, hist_value(rng, width, ones));
+            }
+            75..=80 => {
+                let t = *rng.pick(&[8usize, 16, 32, 64, 65]);
+                let cnt = rng.below(8) as usize;
+                return HI::Extend(t, hist_typed(rng, t, cnt, ones));
+            }
+            81..=84 => {
+                let w = hist_width(rng);
+                return HI::WithLen(rng.below(24) as usize, w, hist_value(rng, w, ones));
+            }
+            85..=87 => {
+                let t = *rng.pick(&[8usize, 16, 32, 64]);
+                let cnt = rng.below(12) as usize;
+                return HI::From(t, hist_typed(rng, t, cnt, ones));
+            }
+            88..=89 => return HI::Clear,
+            90 => return HI::Reserve(rng.below(100) as usize),
+            91..=92 => return HI::CountOnes,
+            // refused calls: past the end (asserted before anything is touched), a width no vector can have
+            93..=95 => return HI::Get(*rng.pick(&[len, len + 1, len + 1000, 1usize << 63, MAX])),
+            96..=97 => return HI::Set(*rng.pick(&[len, len + 1, len + 1000, 1usize << 63, MAX]), hist_value(rng, width, ones)),
+            _ => return HI::WithLen(rng.below(24) as usize, *rng.pick(&[0usize, 65, 66, 128, MAX]), !0u64),
+        }
+    }
+}
+
+// get at a few positions, the iterators over set / unset bits (call sequences), one pass of iter()
+fn bv_hist_calls(rng: &mut Rng, bv: &BitVector) -> BvCalls {
+    let mut c = bv_iter_only(rng, bv, 4);
+    let len = bv.len();
+    let mut idx: Vec<usize> = vec![0, len.wrapping_sub(1), len, len.wrapping_add(63) / 64 * 64, MAX];
+    idx.sort();
+    idx.dedup();
+    for i in idx.iter() {
+        mark(&format!("BitVector::from(raw vector of {} bits).get({})", len, i));
+        let r = catch(|| bv.get(*i));
+        c.push(format!("BGet {} {}", nz(*i), ires(&r, |x| b(*x))), format!("get({})", i), &[class_of(&r)]);
+    }
+    for ops in sequences_r(rng, len, true, 1) {
+        mark(&format!("BitVector::from(raw vector of {} bits).iter():{}", len, seq_desc(&ops)));
+        let (opened, steps) = drive(|| bv.iter(), &ops, step_de, obool);
+        let mut classes: Vec<u64> = vec![class_of(&opened)];
+        classes.extend(steps.iter().map(|s| class_of(&s.2)));
+        c.push(format!("BBits {}", istep_terms(&steps)), format!("iter():{}", seq_desc(&ops)), &classes);
+    }
+    c
+}
+
+// the representation invariant of a raw vector, read off its length and backing words
+fn words_inv(len: usize, words: &[u64]) -> bool {
+    words.len() == len / 64 + (if len % 64 != 0 { 1 } else { 0 }) && (len % 64 == 0 || words[words.len() - 1] >> (len % 64) == 0)
+}
+
+// observe the final raw vector (one time in four: the copy loaded back from the bytes the library wrote for it),
+// convert it, drive the bitvector; `head` is the case term up to and including the history
+fn emit_history(out: &mut Out, rng: &mut Rng, kind: &str, what: &str, head: String, ops_json: Vec<String>, refused: usize, raw: RawVector) {
+    let mut loaded = false;
+    let mut obs = raw;
+    if rng.chance(1, 4) {
+        mark(&format!("{}: serialize + load of the final vector (len={})", what, obs.len()));
+        if let Res::Ok(l) = catch(|| load_back(&obs)) {
+            obs = l;
+            loaded = true;
+        } else {
+            out.stat("hist.final.load_refused");
+        }
+    }
+    let len = obs.len();
+    let words: Vec<u64> = { let w: &[u64] = obs.as_ref(); w.to_vec() };
+    let inv = words_inv(len, &words);
+    out.stat(if inv { "hist.final.invariant_holds" } else { "hist.final.invariant_broken" });
+    out.stat(if len == 0 { "hist.final.empty" } else if len % 64 == 0 { "hist.final.word_aligned" } else { "hist.final.partial_last_word" });
+    let bv = BitVector::from(obs);
+    out.stat(if bv.count_ones() > len { "hist.final.ones_exceed_len" } else if bv.count_ones() == len && len > 0 { "hist.final.all_ones" } else { "hist.final.mixed" });
+    let calls = bv_hist_calls(rng, &bv);
+    out.stat_n("calls.bitvector_after_history", calls.terms.len() as u64);
+    let hits: Vec<String> = calls.descs.iter().zip(calls.is9.iter()).filter(|(_, h)| **h).map(|(d, _)| format!("{:?}", d)).collect();
+    let js: Vec<String> = calls.descs.iter().map(|d| format!("{:?}", d)).collect();
+    let kind_name = if loaded { format!("{}_loaded", kind) } else { kind.to_string() };
+    out.case(&kind_name,
+        format!("{} {} {} [{}]", head, len, nlist(&words), calls.terms.join("; ")),
+        format!("{{\"struct\":{:?},\"history\":[{}],\"refused_calls_dropped\":{},\"final_len\":{},\"final_words\":{:?},\"loaded\":{},\"invariant_holds\":{},\"count_ones\":{},\"oob_calls\":[{}],\"calls\":[{}]}}",
+            what, ops_json.join(","), refused, len, words, loaded, inv, bv.count_ones(), hits.join(","), js.join(",")), true);
+}
+
+// a call of a history that ended in the bounds hook is a finding of its own (the history itself drops refused calls)
+fn hist_refused(out: &mut Out, kind: u64, what: &str, desc: &str, k: u64) {
+    out.stat("hist.call_refused");
+    if k == 9 {
+        out.case("other", format!("COther {} [9]", kind), format!("{{\"struct\":{:?},\"oob\":true,\"calls\":[{:?}]}}", what, format!("{}=9", desc)), true);
+    }
+}
+
+fn raw_history(out: &mut Out, rng: &mut Rng) {
+    let ones = rng.chance(1, 2);
+    let steps = rng.range(3, 28) as usize;
+    let mut v = RawVector::new();
+    let mut ops: Vec<HR> = Vec::new();
+    let mut refused = 0usize;
+    let mut plan: Vec<Option<HR>> = Vec::new();
+    if rng.chance(1, 2) {
+        plan.push(Some(HR::WithLen(if rng.chance(2, 3) { *rng.pick(&HIST_LENS) } else { rng.below(200) as usize }, if ones { true } else { rng.chance(1, 2) })));
+    }
+    for _ in 0..steps {
+        plan.push(None);
+    }
+    // endings the invariant is most exposed to: a vector that just lost its last bits
+    match rng.below(6) {
+        0 => plan.push(Some(HR::PopBit)),
+        1 => {
+            plan.push(Some(HR::PushBit(true)));
+            plan.push(Some(HR::PopBit));
+        }
+        2 => {
+            plan.push(Some(HR::Complement));
+            plan.push(Some(HR::PopBit));
+        }
+        _ => {}
+    }
+    for p in plan.into_iter() {
+        let nwords = { let w: &[u64] = v.as_ref(); w.len() };
+        let o = match p {
+            Some(o) => o,
+            None => gen_hr(rng, v.len(), nwords, ones),
+        };
+        mark(&format!("RawVector history, call {}: {:?} on a vector of {} bits", ops.len(), o, v.len()));
+        let mut c = v.clone();
+        let r = catch(|| hr_apply(&mut c, &o));
+        match r {
+            Res::Ok(()) => {
+                out.stat(&format!("hist.raw.call.{}", hr_name(&o)));
+                v = c;
+                ops.push(o);
+            }
+            Res::Panic(k, _) => {
+                refused += 1;
+                out.stat(&format!("hist.raw.refused.{}", hr_name(&o)));
+                hist_refused(out, K_HISTR, "RawVector history", &format!("{:?}", o), k);
+            }
+        }
+    }
+    out.stat(&format!("hist.raw.last_call.{}", ops.last().map(hr_name).unwrap_or("none")));
+    out.stat_n("hist.raw.calls", ops.len() as u64);
+    let terms: Vec<String> = ops.iter().map(hr_term).collect();
+    let js: Vec<String> = ops.iter().map(|o| format!("{:?}", format!("{:?}", o))).collect();
+    emit_history(out, rng, "hist_raw", "RawVector::new() + safe calls -> BitVector", format!("CHistR {} {} [{}]", PATH, b(DBG), terms.join("; ")), js, refused, v);
+}
+
+fn int_history(out: &mut Out, rng: &mut Rng) {
+    let flavour = rng.below(20);
+    let ones = flavour < 11;
+    let mut w0 = hist_width(rng);
+    let mut plan: Vec<Option<HI>> = Vec::new();
+    if flavour < 7 {
+        // a vector of all-ones items whose LAST call is pop(), leaving (mostly) a bit length that is not a multiple of 64
+        out.stat("hist.int.flavour.all_ones_then_pop");
+        let w = hist_width(rng);
+        let mut n = rng.range(1, 24) as usize;
+        for _ in 0..4 {
+            if ((n - 1) * w) % 64 != 0 {
+                break;
+            }
+            n += 1;
+        }
+        let m = !0u64;
+        match rng.below(5) {
+            0 => plan.push(Some(HI::WithLen(n, w, m))),
+            1 => {
+                w0 = w;
+                for _ in 0..n {
+                    plan.push(Some(HI::Push(if rng.chance(1, 2) { m } else { hist_value(rng, w, true) })));
+                }
+            }
+            2 => {
+                w0 = w;
+                plan.push(Some(HI::Resize(n, m)));
+            }
+            3 => {
+                w0 = w;
+                plan.push(Some(HI::Extend(64, vec![m; n])));
+            }
+            _ => {
+                plan.push(Some(HI::WithLen(n / 2, w, m)));
+                plan.push(Some(HI::Resize(n, m)));
+            }
+        }
+        for _ in 0..rng.below(4) {
+            plan.push(Some(match rng.below(4) {
+                0 => HI::Push(m),
+                1 => HI::Set(rng.below(n as u64) as usize, m),
+                2 => HI::Get(rng.below(n as u64) as usize),
+                _ => HI::Pop,
+            }));
+        }
+        plan.push(Some(HI::Pop));
+        if rng.chance(1, 4) {
+            plan.push(Some(HI::Pop));
+        }
+    } else {
+        out.stat(if ones { "hist.int.flavour.random_mostly_ones" } else { "hist.int.flavour.random" });
+        for _ in 0..rng.range(3, 30) {
+            plan.push(None);
+        }
+        match rng.below(8) {
+            0 | 1 | 2 => plan.push(Some(HI::Pop)),
+            3 => {
+                plan.push(Some(HI::Push(!0u64)));
+                plan.push(Some(HI::Pop));
+            }
+            4 => {
+                plan.push(Some(HI::Pop));
+                plan.push(Some(HI::Pop));
+            }
+            5 => {
+                plan.push(Some(HI::Resize(rng.range(1, 20) as usize, !0u64)));
+                plan.push(Some(HI::Pop));
+            }
+            _ => {}
+        }
+    }
+    let mut v = IntVector::new(w0).unwrap();
+    let mut ops: Vec<HI> = Vec::new();
+    let mut refused = 0usize;
+    for p in plan.into_iter() {
+        let o = match p {
+            Some(o) => o,
+            None => gen_hi(rng, v.len(), v.width(), ones),
+        };
+        mark(&format!("IntVector history, call {}: {:?} on a vector of {} items of width {}", ops.len(), o, v.len(), v.width()));
+        let mut c = v.clone();
+        let r = catch(|| hi_apply(&mut c, &o));
+        match r {
+            Res::Ok(()) => {
+                out.stat(&format!("hist.int.call.{}", hi_name(&o)));
+                v = c;
+                ops.push(o);
+            }
+            Res::Panic(k, _) => {
+                refused += 1;
+                out.stat(&format!("hist.int.refused.{}", hi_name(&o)));
+                hist_refused(out, K_HISTI, "IntVector history", &format!("{:?}", o), k);
+            }
+        }
+    }
+    out.stat(&format!("hist.int.last_call.{}", ops.last().map(hi_name).unwrap_or("none")));
+    out.stat(&format!("hist.int.final_width.{}", if HIST_WIDTHS.contains(&v.width()) { format!("{}", v.width()) } else { "other".to_string() }));
+    out.stat_n("hist.int.calls", ops.len() as u64);
+    if matches!(ops.last(), Some(HI::Pop)) && (v.len() * v.width()) % 64 != 0 {
+        out.stat("hist.int.ends_with_pop_inside_a_word");
+    }
+    let terms: Vec<String> = ops.iter().map(hi_term).collect();
+    let js: Vec<String> = ops.iter().map(|o| format!("{:?}", format!("{:?}", o))).collect();
+    let what = format!("IntVector::new({}) + safe calls -> RawVector -> BitVector", w0);
+    mark(&format!("RawVector::from(IntVector of {} items of width {})", v.len(), v.width()));
+    let raw = RawVector::from(v);
+    emit_history(out, rng, "hist_int", &what, format!("CHistI {} {} {} [{}]", PATH, b(DBG), w0, terms.join("; ")), js, refused, raw);
+}
+
 // ---------------------------------------------------------------- masks
 
 fn masks_batch(out: &mut Out) {
@@ -1697,4 +2260,26 @@ pub fn run(rng: &mut Rng, out: &mut Out, thorough: bool, variant: &str) {
     // ---- mask functions
     let seed = rng.next();
     bt.run(out, K_MASKS, "masks", seed, |o| masks_batch(o));
+    // ---- histories of safe calls, then the conversions into a BitVector and its iterators
+    let (rb, ib, per) = if thorough { (40, 80, 40) } else { (10, 20, 30) };
+    for k in 0..rb {
+        let seed = rng.next();
+        out.stat("struct.raw_histories");
+        bt.run(out, K_HISTR, &format!("RawVector histories, batch {}", k), seed, |o| {
+            let mut r = Rng::new(seed);
+            for _ in 0..per {
+                raw_history(o, &mut r);
+            }
+        });
+    }
+    for k in 0..ib {
+        let seed = rng.next();
+        out.stat("struct.int_histories");
+        bt.run(out, K_HISTI, &format!("IntVector histories, batch {}", k), seed, |o| {
+            let mut r = Rng::new(seed);
+            for _ in 0..per {
+                int_history(o, &mut r);
+            }
+        });
+    }
 }
